@@ -80,24 +80,134 @@ func c23(x *Ctx) {
 	c.Min(r1, 12)
 	// ---- clause 2 ------------------------------------------------------------------------------
 	const r2 = "C23.one-response"
-	for _, h := range handlers {
-		r := eng.Explore(eng.Query{Fn: h, Classify: func(in ssa.Instruction, _ eng.Facts) eng.Event {
+	// helpers of package route that are handed the ResponseWriter and write a body themselves: summarised by
+	// whether they can write on a path that returns a nil / a non-nil error
+	type wsum struct{ whenNil, whenErr, noErrResult bool }
+	sums := map[*ssa.Function]*wsum{}
+	var summarise func(g *ssa.Function, depth int) *wsum
+	summarise = func(g *ssa.Function, depth int) *wsum {
+		if s, ok := sums[g]; ok {
+			return s
+		}
+		s := &wsum{}
+		sums[g] = s
+		if g == nil || g.Blocks == nil || depth > 3 || x.P.FuncRel(g) != "route" {
+			return s
+		}
+		takesW := false
+		for _, p := range g.Params {
+			if typeString(p.Type()) == "net/http.ResponseWriter" {
+				takesW = true
+			}
+		}
+		if !takesW {
+			return s
+		}
+		res := g.Signature.Results()
+		s.noErrResult = res.Len() == 0 || res.At(res.Len()-1).Type().String() != "error"
+		r := eng.Explore(eng.Query{Fn: g, Classify: func(in ssa.Instruction, _ eng.Facts) eng.Event {
 			if _, isDefer := in.(*ssa.Defer); isDefer {
 				return eng.EvNone
 			}
 			if isBody(in) {
 				return eng.EvSink
 			}
+			if cl, ok := in.(*ssa.Call); ok {
+				if cal := cl.Call.StaticCallee(); cal != nil && cal != g {
+					if cs := summarise(cal, depth+1); cs.whenNil || cs.whenErr {
+						return eng.EvSink
+					}
+				}
+			}
 			return eng.EvNone
 		}})
-		c.Examined += r.States
+		for _, e := range r.Exits {
+			ret, isRet := e.Instr.(*ssa.Return)
+			if !isRet || e.Sinks == 0 {
+				continue
+			}
+			if s.noErrResult {
+				s.whenNil, s.whenErr = true, true
+				continue
+			}
+			switch e.Facts.Nil(ret.Results[len(ret.Results)-1]) {
+			case eng.True:
+				s.whenNil = true
+			case eng.False:
+				s.whenErr = true
+			default:
+				s.whenNil, s.whenErr = true, true
+			}
+		}
+		return s
+	}
+	for _, h := range handlers {
+		// call sites of writing helpers in this handler
+		type wsite struct {
+			call *ssa.Call
+			sum  *wsum
+			errs []ssa.Value
+		}
+		var wsites []wsite
+		eng.Instrs(h, func(in ssa.Instruction) {
+			cl, ok := in.(*ssa.Call)
+			if !ok || isBody(in) {
+				return
+			}
+			if cal := cl.Call.StaticCallee(); cal != nil {
+				if s := summarise(cal, 0); s.whenNil || s.whenErr {
+					ws := wsite{call: cl, sum: s}
+					if !s.noErrResult {
+						if cal.Signature.Results().Len() == 1 {
+							ws.errs = []ssa.Value{cl}
+						} else {
+							ws.errs = extractOf(cl, cal.Signature.Results().Len()-1)
+						}
+					}
+					wsites = append(wsites, ws)
+				}
+			}
+		})
+		// one exploration per assumed outcome of the writing helpers (none on today's tree: a single run)
+		outcomes := []eng.Tri{eng.Unknown}
+		if len(wsites) > 0 {
+			outcomes = []eng.Tri{eng.True, eng.False}
+		}
 		bad := false
-		for _, hit := range r.Hits {
-			if hit.Before >= 1 {
-				bad = true
-				o := c.Violate(r2, BaseName(h), x.Pos(hit.Instr), "a second response body is written on a path that already wrote one")
-				o.Path = eng.DescribePath(x.P.Pos, hit.Path)
-				break
+		for _, oc := range outcomes {
+			as := &eng.Assume{Nil: func(v ssa.Value) eng.Tri {
+				for _, ws := range wsites {
+					for _, e := range ws.errs {
+						if v == e {
+							return oc
+						}
+					}
+				}
+				return eng.Unknown
+			}}
+			r := eng.Explore(eng.Query{Fn: h, Assume: as, Classify: func(in ssa.Instruction, _ eng.Facts) eng.Event {
+				if _, isDefer := in.(*ssa.Defer); isDefer {
+					return eng.EvNone
+				}
+				if isBody(in) {
+					return eng.EvSink
+				}
+				for _, ws := range wsites {
+					if ssa.Instruction(ws.call) == in {
+						if ws.sum.noErrResult || oc == eng.True && ws.sum.whenNil || oc == eng.False && ws.sum.whenErr {
+							return eng.EvSink
+						}
+					}
+				}
+				return eng.EvNone
+			}})
+			c.Examined += r.States
+			for _, hit := range r.Hits {
+				if hit.Before >= 1 && !bad {
+					bad = true
+					o := c.Violate(r2, BaseName(h), x.Pos(hit.Instr), "a second response body is written on a path that already wrote one (directly or inside a helper that was handed the ResponseWriter)")
+					o.Path = eng.DescribePath(x.P.Pos, hit.Path)
+				}
 			}
 		}
 		if !bad {
@@ -181,6 +291,80 @@ func c23(x *Ctx) {
 		}
 	}
 	c.Min(r3, 3)
+	// ---- clause 3b: once an event of the request was handed on, the request as a whole is not failed ------
+	const r3b = "C23.no-error-after-accept"
+	for _, n := range []string{"processOTLPRequest", "processOTLPRequestBatchMsgp"} {
+		f := x.Fn(r3b, "route", "Router", n)
+		if f == nil {
+			continue
+		}
+		var pcs []ssa.Instruction
+		eng.Instrs(f, func(in ssa.Instruction) {
+			if _, ok := eng.IsCall(in, "(*route.Router).processEvent"); ok {
+				pcs = append(pcs, in)
+			}
+		})
+		if len(pcs) == 0 {
+			continue // delegates to a sibling that is checked itself
+		}
+		c.Examined++
+		var at ssa.Instruction
+		for _, pc := range pcs {
+			r := eng.Explore(eng.Query{Fn: f, Start: pc, TrackPhi: func(*ssa.Phi) bool { return true }})
+			for _, e := range r.Exits {
+				ret, isRet := e.Instr.(*ssa.Return)
+				if !isRet || len(ret.Results) == 0 {
+					continue
+				}
+				if e.Facts.Nil(e.Facts.Resolve(ret.Results[len(ret.Results)-1])) != eng.True {
+					at = ret
+				}
+			}
+		}
+		if at != nil {
+			c.Violate(r3b, n, x.Pos(at), "after events of the request have been handed to processEvent the function can still return an error: the client is told the whole request failed (and retries it) although part of it was forwarded or buffered")
+		} else {
+			c.Hold(r3b, n, x.PosOf(f.Pos()), "after the first processEvent every return is nil")
+		}
+	}
+	c.Min(r3b, 1)
+	// ---- clause 4b: a batch element's status comes from that element's own processing -----------------------
+	const r4b = "C23.per-event-status-fresh"
+	if b := x.Fn(r4b, "route", "Router", "batch"); b != nil {
+		var pc ssa.Instruction
+		eng.Instrs(b, func(in ssa.Instruction) {
+			if _, ok := eng.IsCall(in, "(*route.Router).processEvent"); ok {
+				pc = in
+			}
+		})
+		if pc == nil {
+			c.Undecided(r4b, "batch", x.PosOf(b.Pos()), "no processEvent call in batch")
+		} else if h := loopHeader(pc); h == nil {
+			c.Undecided(r4b, "batch", x.Pos(pc), "processEvent is not called in a loop over the batch")
+		} else {
+			carried := ""
+			for _, in := range h.Instrs {
+				phi, ok := in.(*ssa.Phi)
+				if !ok {
+					break
+				}
+				if phi.Type().String() == "error" {
+					// only matters when the carried value is read inside the loop
+					for _, ref := range *phi.Referrers() {
+						if inNaturalLoop(ref.Block(), h) {
+							carried = phi.Comment
+							if carried == "" {
+								carried = phi.Name()
+							}
+						}
+					}
+				}
+			}
+			c.Examined++
+			c.Decide(carried == "", r4b, "batch", x.Pos(pc), "no error value is carried from one batch element to the next",
+				"the error variable `"+carried+"` keeps its value from one batch element to the next: after one element fails, later elements that were accepted are reported with the earlier element's error status")
+		}
+	}
 	// ---- clause 4: batch status mapping ------------------------------------------------------------
 	const r4 = "C23.status-mapping"
 	if b := x.Fn(r4, "route", "Router", "batch"); b != nil {
